@@ -366,11 +366,26 @@ theorem cbrtIter_inl_ne (c : Ctx) (prec : Int) (maxIter : Nat) (ax : Dec) :
       · simp at h
       · exact ih _ _ _ _ h
 
+theorem scaleLoop_inl_ne (test : Dec → Bool) (k : Dec) :
+    ∀ (fuel : Nat) (e : ED) (z : Dec) (n : Nat) (er : ErrKind),
+      scaleLoop test k fuel e z n = some (.inl er) → er ≠ .none := by
+  intro fuel
+  induction fuel with
+  | zero => intro e z n er h; simp [scaleLoop] at h
+  | succ fuel ih =>
+    intro e z n er h
+    simp only [scaleLoop] at h
+    split_ifs at h with h1 h2
+    · simp only [Option.some.injEq, Sum.inl.injEq] at h
+      rw [← h]; exact errOf_ne _ h2
+    · exact ih _ _ _ _ h
+    · simp at h
+
 theorem cbrtOp_inv (c : Ctx) (x : Dec) (o : Out) (h : rootSpecials c x 3 = none)
     (ho : cbrtOp c x = some o) (he : o.err = .none) :
     ∃ ed1 z1 down ed2 z2 up zf,
-      scaleLoop (fun z => z.cmp decOneEighth < 0) decEight 400000 { c := nc c } x.absD 0 = some (ed1, z1, down) ∧
-      scaleLoop (fun z => z.cmp decOne > 0) decOneEighth 400000 ed1 z1 0 = some (ed2, z2, up) ∧
+      scaleLoop (fun z => z.cmp decOneEighth < 0) decEight 400000 { c := nc c } x.absD 0 = some (.inr (ed1, z1, down)) ∧
+      scaleLoop (fun z => z.cmp decOne > 0) decOneEighth 400000 ed1 z1 0 = some (.inr (ed2, z2, up)) ∧
       cbrtIter (nc c) ((c.prec : Int) + 1) (10 + (c.prec + 1)) x.absD (10 + (c.prec + 1) + 2)
             (est ed2 z2 down up).1 (est ed2 z2 down up).2 {} = some (.inr zf) ∧
       o = tail c x (est ed2 z2 down up).1.fl zf := by
@@ -379,9 +394,19 @@ theorem cbrtOp_inv (c : Ctx) (x : Dec) (o : Out) (h : rootSpecials c x 3 = none)
   dsimp only at ho
   split at ho
   · exact absurd ho (by simp)
+  · rename_i er h1
+    simp only [Option.some.injEq] at ho
+    exfalso
+    rw [← ho] at he
+    exact scaleLoop_inl_ne _ _ _ _ _ _ _ h1 he
   · rename_i ed1 z1 down h1
     split at ho
     · exact absurd ho (by simp)
+    · rename_i er h2
+      simp only [Option.some.injEq] at ho
+      exfalso
+      rw [← ho] at he
+      exact scaleLoop_inl_ne _ _ _ _ _ _ _ h2 he
     · rename_i ed2 z2 up h2
       split at ho
       · exact absurd ho (by simp)
@@ -427,7 +452,7 @@ theorem good_mul (cc : Ctx) (p : Nat) (hw : NCtx cc p) (hp1 : 1 ≤ p) (hp2 : p 
 theorem scaleLoop_good (cc : Ctx) (p : Nat) (hw : NCtx cc p) (hp1 : 1 ≤ p) (hp2 : p ≤ 100000)
     (test : Dec → Bool) (k : Dec) (hk : Pos k) :
     ∀ (fuel : Nat) (e : ED) (z : Dec) (n : Nat) (e' : ED) (z' : Dec) (n' : Nat), Good cc e z →
-      scaleLoop test k fuel e z n = some (e', z', n') → Good cc e' z' ∧ test z' = false := by
+      scaleLoop test k fuel e z n = some (.inr (e', z', n')) → Good cc e' z' ∧ test z' = false := by
   intro fuel
   induction fuel with
   | zero => intro e z n e' z' n' hG h; simp [scaleLoop] at h
@@ -436,9 +461,11 @@ theorem scaleLoop_good (cc : Ctx) (p : Nat) (hw : NCtx cc p) (hp1 : 1 ≤ p) (hp
     simp only [scaleLoop] at h
     by_cases ht : test z = true
     · rw [if_pos ht] at h
-      exact ih _ _ _ _ _ _ (good_mul cc p hw hp1 hp2 k hk e z hG) h
+      split_ifs at h
+      · simp at h
+      · exact ih _ _ _ _ _ _ (good_mul cc p hw hp1 hp2 k hk e z hG) h
     · rw [if_neg ht] at h
-      simp only [Option.some.injEq, Prod.mk.injEq] at h
+      simp only [Option.some.injEq, Sum.inr.injEq, Prod.mk.injEq] at h
       obtain ⟨rfl, rfl, rfl⟩ := h
       exact ⟨hG, by simpa using ht⟩
 
